@@ -120,6 +120,8 @@ def op_programs():
         if name in U.SKIP_OPS or U.is_marker(op):
             continue
         for si, args in U.instantiations(op):
+            if name == "neg" and args[0][1].startswith("uint"):
+                continue  # the negation of an unsigned value overflows (DESIGN 4.2)
             progs.append((name, si, args))
     return progs
 
@@ -153,9 +155,7 @@ def run_ops(rng, stats, vs):
                                 t2 >> pdt.export(pdt.Polars())
                             else:
                                 q = t2 >> pdt.build_query()
-                                prob = D.top_level_problem(q, b)
-                                if prob:
-                                    vs.append(mk("one-select-statement", b, f"{cx}:{label}", prob.replace(" ", "-"), {"query": q[:400]}))
+                                check_compiled(q, b, f"{cx}:{label}", vs)
                         stats[f"{b}:implemented"] += 1
                         stats["traces_validated"] += 1
                     except Exception as e:  # noqa: BLE001
@@ -168,6 +168,56 @@ def run_ops(rng, stats, vs):
     finally:
         built["polars"].close()
         built["sqlite"].close()
+
+
+def run_duration(stats, vs):
+    """operators over Duration columns cannot be executed here (no backend in this image stores
+    durations): they are compiled on PostgreSQL and SQL Server and exported on polars"""
+    import datetime as dt
+
+    import polars as pl
+    import sqlalchemy as sqa
+
+    progs = [(f"dur.{n}", lambda t, n=n: getattr(t.du.dur, n)()) for n in ("days", "hours", "minutes", "seconds", "milliseconds", "microseconds")]
+    progs += [("datetime-datetime", lambda t: t.t - t.t), ("datetime+duration", lambda t: t.t + t.du), ("duration+duration", lambda t: t.du + t.du),
+              ("duration==duration", lambda t: t.du == t.du), ("max(duration)", lambda t: t.du.max()), ("min-horizontal", lambda t: pdt.min(t.du, t.du))]
+    tables = {}
+    for d in DIALECTS:
+        tables[d] = pdt.Table(sqa.Table("T", sqa.MetaData(), sqa.Column("k", sqa.BigInteger), sqa.Column("du", sqa.Interval), sqa.Column("t", sqa.DateTime)),
+                              pdt.SqlAlchemy(D.engine(d)))
+    tables["polars"] = pdt.Table(pl.DataFrame({"k": [1, 2], "du": [dt.timedelta(days=2, hours=3), None], "t": [dt.datetime(2020, 1, 2), None]}), name="T")
+    for label, f in progs:
+        for b, t in tables.items():
+            stats["states"] += 1
+            stats["transitions"] += 1
+            try:
+                with warnings.catch_warnings():
+                    warnings.simplefilter("ignore")
+                    t2 = t >> pdt.mutate(y=f(t))
+                    if b == "polars":
+                        t2 >> pdt.export(pdt.Polars())
+                    else:
+                        q = t2 >> pdt.build_query()
+                        check_compiled(q, b, f"mutate:{label}", vs)
+                stats[f"{b}:implemented"] += 1
+                stats["traces_validated"] += 1
+            except Exception as e:  # noqa: BLE001
+                if type(e).__name__ in ("NotSupportedError", "SubqueryError"):
+                    stats[f"{b}:{type(e).__name__}"] += 1
+                    stats["traces_validated"] += 1
+                    continue
+                vs.append(mk("implementation-or-not-supported", b, f"mutate:{label}", f"exception:{X.exc_label(e)}", {"message": str(e)[:300]}))
+
+
+def check_compiled(q, b, label, vs):
+    import re
+
+    prob = D.top_level_problem(q, b)
+    if prob:
+        vs.append(mk("one-select-statement", b, label, prob.replace(" ", "-"), {"query": q[:400]}))
+    # an implementation that returns nothing compiles the new column to a bare NULL
+    if re.search(r"(?:SELECT|,)\s+NULL AS \[?\"?y\b", q):
+        vs.append(mk("implementation-or-not-supported", b, label, "compiles-to-NULL", {"query": q[:400]}))
 
 
 def mk(invariant, backend, label, symptom, detail):
@@ -193,6 +243,7 @@ def tasks(tier):
         out += [{"part": "hist", "world": wi, "first": [i], "depth": d} for i in range(n)]
     for hs in HASHSEEDS:
         out.append({"part": "hist", "world": 0, "first": None, "depth": DIGEST_DEPTH, "hashseed": hs})
+    out.append({"part": "duration"})
     np_ = len(op_programs())
     for i in range(0, np_, 80):
         out.append({"part": "ops", "range": [i, min(np_, i + 80)]})
@@ -200,9 +251,12 @@ def tasks(tier):
 
 
 def run_task(task, tier):
-    if task["part"] == "ops":
+    if task["part"] in ("ops", "duration"):
         stats, vs = Counter(), []
-        run_ops(task["range"], stats, vs)
+        if task["part"] == "ops":
+            run_ops(task["range"], stats, vs)
+        else:
+            run_duration(stats, vs)
         merged = {}
         for v in vs:
             if v["class"] in merged:
@@ -247,6 +301,10 @@ def finalize(total, tier, seed):
 
 def recheck(rec):
     p = rec.get("params") or {}
+    if p.get("part") == "ops" and rec["py"].split(":", 1)[-1].split("(")[0] in ("dur.days", "dur.hours", "dur.minutes", "dur.seconds", "dur.milliseconds", "dur.microseconds", "datetime-datetime", "datetime+duration", "duration+duration", "duration==duration", "max", "min-horizontal"):
+        stats, vs = Counter(), []
+        run_duration(stats, vs)
+        return [v for v in vs if v["class"] == rec["class"]]
     if p.get("part") == "ops":
         stats, vs = Counter(), []
         progs = op_programs()
@@ -268,7 +326,8 @@ def describe(tier):
                             "NotSupportedError / SubqueryError are the only exceptions", "same text on a second call",
                             f"same text in {len(HASHSEEDS)} other processes with different PYTHONHASHSEED (histories of depth <= {DIGEST_DEPTH})"]},
         "ops": {"programs": len(op_programs()), "backends": ["polars (export)", "sqlite (export)", "postgres (compile)", "mssql (compile)"],
-                "contexts": "mutate; summarize additionally for aggregates", "invariant": "executes / compiles, or raises NotSupportedError"},
+                "contexts": "mutate; summarize additionally for aggregates", "invariant": "executes / compiles (not to a bare NULL), or raises NotSupportedError",
+                "duration": "12 programs over Duration / Datetime columns compiled on PostgreSQL and SQL Server and exported on polars"},
         "regime": "tree + exhaustive operator sweep",
         "assumptions": ["stub DBAPI modules only provide what SQLAlchemy needs to construct an engine; no statement is sent anywhere",
                         "reference model used only for enabledness"],
